@@ -99,7 +99,7 @@ def h1_permissions(timeout=60, **kw):
                                                 pd.PDFStandardSecurityHandler.is_extractable], {"P": "every signed 32-bit integer"}, timeout, concretize=conc, shims={"namespace_shims": shims})
 
 
-SHAPES = ["bytes", "empty", "int", "name", "list", "dict", "nested", "none"]
+SHAPES = ["bytes", "empty", "int", "name", "list", "dict", "nested", "none", "list-in-list", "deep"]
 
 
 def _build(shape, tag):
@@ -118,6 +118,10 @@ def _build(shape, tag):
         return [b"a" + tag, 3, b"b" + tag]
     if shape == "dict":
         return {"K": b"k" + tag, "N": LIT("x"), "E": b""}
+    if shape == "list-in-list":
+        return [[b"p" + tag, b"q" + tag], [b"r" + tag], 4]
+    if shape == "deep":
+        return {"Opt": [[b"e" + tag, [b"f" + tag, {"G": [b"g" + tag]}]]], "T": (b"t" + tag,) if False else b"t" + tag}
     return {"A": [b"x" + tag, {"B": b"y" + tag}], "C": 1.5}
 
 
@@ -813,7 +817,7 @@ DOC_TEXT = "Hello"
 
 def _doc_objects(tag):
     from lib.pdfgen import Ref, Stream
-    return {1: {"Type": "Catalog", "Pages": Ref(2), "Lang": b"lang-" + tag, "Metadata": Ref(6), "Extra": [b"in (an) array", {"K": b"in a \\ dict"}]},
+    return {1: {"Type": "Catalog", "Pages": Ref(2), "Lang": b"lang-" + tag, "Metadata": Ref(6), "Extra": [b"in (an) array", {"K": b"in a \\ dict"}, [[b"twice nested", [b"thrice"]]]]},
             2: {"Type": "Pages", "Kids": [Ref(4)], "Count": 1}, 3: {"Type": "Font", "Subtype": "Type1", "BaseFont": "Helvetica"},
             4: {"Type": "Page", "Parent": Ref(2), "MediaBox": [0, 0, 200, 200], "Contents": Ref(5), "Resources": {"Font": {"F1": Ref(3)}}},
             5: Stream({}, b"BT /F1 10 Tf 10 100 Td (" + DOC_TEXT.encode() + b" " + tag + b") Tj ET"),
@@ -864,11 +868,11 @@ def _docs_check(sel):
                 return "%s: the other document accepted a wrong password" % desc
         for rnd in (1, 2):
             cat = doc.getobj(1)
-            got = (cat["Lang"], resolve1(cat["Extra"])[0], resolve1(cat["Extra"])[1]["K"], doc.getobj(5).get_data(), doc.getobj(6).get_data(), doc.getobj(300).get_data())
-            exp = (plain[1]["Lang"], plain[1]["Extra"][0], plain[1]["Extra"][1]["K"], plain[5].data, plain[6].data, plain[300].data)
+            got = (cat["Lang"], resolve1(cat["Extra"])[0], resolve1(cat["Extra"])[1]["K"], doc.getobj(5).get_data(), doc.getobj(6).get_data(), doc.getobj(300).get_data(), resolve1(cat["Extra"])[2])
+            exp = (plain[1]["Lang"], plain[1]["Extra"][0], plain[1]["Extra"][1]["K"], plain[5].data, plain[6].data, plain[300].data, plain[1]["Extra"][2])
             if got != exp:
                 k = [i for i in range(len(exp)) if got[i] != exp[i]][0]
-                return "%s: reading %d: %s is %r, the original has %r" % (desc, rnd, ["the catalog string", "the string in an array", "the string in a nested dictionary", "the content stream", "the metadata stream", "stream 300"][k], got[k][:40], exp[k][:40])
+                return "%s: reading %d: %s is %r, the original has %r" % (desc, rnd, ["the catalog string", "the string in an array", "the string in a nested dictionary", "the content stream", "the metadata stream", "stream 300", "the strings in nested arrays"][k], got[k][:40], exp[k][:40])
             if rnd == 1 and not caching:
                 for n in (5, 6, 300):                    # with caching off every getobj parses and deciphers again
                     if doc.getobj(n).get_data() != plain[n].data:
